@@ -1,0 +1,60 @@
+//go:build verif
+
+package wallet
+
+import (
+	"github.com/elnosh/gonuts/cashu"
+	"github.com/elnosh/gonuts/crypto"
+	"github.com/elnosh/gonuts/wallet/storage"
+)
+
+// VerifWrapDB replaces the wallet's storage with wrap(current storage).
+// Only compiled with the `verif` build tag; used by the external
+// verification harness to observe and interrupt storage calls.
+func (w *Wallet) VerifWrapDB(wrap func(storage.WalletDB) storage.WalletDB) {
+	w.db = wrap(w.db)
+}
+
+func verifMint(activeId string, activeFee uint, inactiveFees map[string]uint) *walletMint {
+	inactive := make(map[string]crypto.WalletKeyset, len(inactiveFees))
+	for id, fee := range inactiveFees {
+		inactive[id] = crypto.WalletKeyset{Id: id, InputFeePpk: fee}
+	}
+	return &walletMint{
+		mintURL:         "verif",
+		activeKeyset:    crypto.WalletKeyset{Id: activeId, Active: true, InputFeePpk: activeFee},
+		inactiveKeysets: inactive,
+	}
+}
+
+// VerifSelectProofsToSend calls the unexported selectProofsToSend.
+func VerifSelectProofsToSend(
+	proofs cashu.Proofs,
+	amount uint64,
+	activeId string,
+	activeFee uint,
+	inactiveFees map[string]uint,
+	includeFees bool,
+) (cashu.Proofs, error) {
+	return selectProofsToSend(proofs, amount, verifMint(activeId, activeFee, inactiveFees), includeFees)
+}
+
+// VerifFeesForProofs calls the unexported feesForProofs.
+func VerifFeesForProofs(proofs cashu.Proofs, activeId string, activeFee uint, inactiveFees map[string]uint) uint {
+	return feesForProofs(proofs, verifMint(activeId, activeFee, inactiveFees))
+}
+
+// VerifFeesForCount calls the unexported feesForCount.
+func VerifFeesForCount(count int, feePpk uint) uint {
+	return feesForCount(count, &crypto.WalletKeyset{InputFeePpk: feePpk})
+}
+
+// VerifSplitWalletTarget calls the unexported splitWalletTarget.
+func (w *Wallet) VerifSplitWalletTarget(amount uint64, mint string) []uint64 {
+	return w.splitWalletTarget(amount, mint)
+}
+
+// VerifCalculateBlankOutputs calls the unexported calculateBlankOutputs.
+func VerifCalculateBlankOutputs(feeReserve uint64) int {
+	return calculateBlankOutputs(feeReserve)
+}
